@@ -32,6 +32,8 @@ func checkC13(c *Ctx) {
 	c.lenOrdering()
 	lockBalance(c, func(cl string) bool { return strings.HasPrefix(cl, "sessions.Ackqueue.") }, "ack-queue")
 	c.queueMethodsLocked()
+	// answers computed once and kept are reset by every update of what they were computed from
+	c.memoisedViews()
 }
 
 // whoWrites lists the functions that store the given field of type pkg.typ.
